@@ -96,3 +96,54 @@ def shrink(prog: Dict[str, Any], fails: Callable[[Dict[str, Any]], bool], budget
 
 def size(prog: Dict[str, Any]) -> int:
     return len(json.dumps(prog["circuit"]))
+
+
+def shrink_history(hist: Dict[str, Any], fails: Callable[[Dict[str, Any]], bool], budget: int = 600) -> Dict[str, Any]:
+    """Greedy history shrinking: drop observations / setting changes / trailing adds while the failure persists."""
+    best = hist
+    evals = 0
+    improved = True
+    while improved and evals < budget:
+        improved = False
+        n = len(best["events"])
+        for i in reversed(range(n)):
+            e = best["events"][i]
+            if e["ev"] == "add":
+                # an add can only be dropped when nothing later refers to a later index: drop trailing adds only
+                later_adds = [x for x in best["events"][i + 1:] if x["ev"] in ("add", "grow")]
+                if later_adds:
+                    continue
+            cand = copy.deepcopy(best)
+            del cand["events"][i]
+            evals += 1
+            if evals > budget:
+                break
+            try:
+                if fails(cand):
+                    best = cand
+                    improved = True
+                    break
+            except Exception:
+                continue
+        if improved:
+            continue
+        # simplify the steps of add events (sub-circuits -> smaller) using the program shrinker's candidates
+        for i, e in enumerate(best["events"]):
+            if e["ev"] == "add" and "sub" in e["step"]:
+                prog = {"circuit": e["step"]["sub"], "settings": {}}
+                for c in candidates(prog):
+                    cand = copy.deepcopy(best)
+                    cand["events"][i]["step"]["sub"] = c["circuit"]
+                    evals += 1
+                    if evals > budget:
+                        break
+                    try:
+                        if fails(cand):
+                            best = cand
+                            improved = True
+                            break
+                    except Exception:
+                        continue
+            if improved:
+                break
+    return best
